@@ -127,6 +127,18 @@ def responses(ctx, res):
             if obs["result"] != want:
                 total = len(agent.raw_log[-1][1]) if agent.raw_log else None
                 res.violate("responses", {"level": level, "pad": pad, "total_length": total}, want, obs["result"], "an authentic response was not accepted / decoded", {"kind": "usm-in", "what": "authentic-rejected", "level": level})
+        # the agent's own usmStats counters are ordinary objects (C10_accepts_counters): an
+        # authentic response carrying them is data, not an error report
+        for k in range(1, 7):
+            for name in ("get", "getnext"):
+                oid = [1, 3, 6, 1, 6, 3, 15, 1, 1, k, 0]
+                agent = RA.Agent(db=[(tuple(oid), ["counter32", 40 + k])])
+                obs, _ = O.impl_op(name, {"oid": oid if name == "get" else oid[:-1]}, agent, "v3", level)
+                res.evaluations += 1
+                res.count(f"responses-usmstats:{level}")
+                want = ["ok", ["counter32", 40 + k]] if name == "get" else ["ok", [oid, ["counter32", 40 + k]]]
+                if obs["result"] != want:
+                    res.violate("responses", {"level": level, "usmstats": k, "op": name}, want, obs["result"], "an authentic response carrying a usmStats counter was not accepted / decoded", {"kind": "usm-in", "what": "authentic-rejected", "level": level, "usmstats": True})
 
 
 class RecordingHash:
